@@ -397,6 +397,274 @@ class Pure:
         _fail(s, "statement")
 
 
+class Alg:
+    """the set algebra: methods built from iteration over self / the operands, membership tests,
+    from_iterable, add, discard, clear and each other.  `others` is the *args list of operands
+    (list operand); an operand is what iterating it yields plus the IndexedSet bit (Lib/C11_Iface.v)."""
+
+    def __init__(self, vararg=None, operands=()):
+        self.vararg = vararg
+        self.operands = set(operands)      # names bound to one operand
+        self.opd_expr = {}                 # operand local -> Gallina text
+        self.items_expr = {}               # local bound to an iterable of items -> Gallina text
+        self.isets = set()                 # locals holding a (new) IndexedSet
+        self.itemvars = set()              # loop variables ranging over items
+        self.klists = set()
+
+    # --- operands, item iterables, IndexedSet values -------------------------------------------------
+    def star(self, call):
+        """the call passes exactly *others"""
+        return (len(call.args) == 1 and isinstance(call.args[0], ast.Starred) and isinstance(call.args[0].value, ast.Name)
+                and call.args[0].value.id == self.vararg and not call.keywords)
+
+    def operand(self, e):
+        if isinstance(e, ast.Name) and e.id in self.operands:
+            return self.opd_expr.get(e.id, e.id)
+        if isinstance(e, ast.Subscript) and isinstance(e.value, ast.Name) and e.value.id == self.vararg \
+                and isinstance(e.slice, ast.Constant) and e.slice.value == 0:
+            return "(nth 0 %s (Opd false []))" % self.vararg
+        try:
+            return "(as_operand %s)" % self.iset(e)
+        except Unsupported:
+            _fail(e, "operand")
+
+    def iset(self, e):
+        if isinstance(e, ast.Name) and e.id in self.isets:
+            return e.id
+        if isinstance(e, ast.Call) and isinstance(e.func, ast.Attribute):
+            recv, name = e.func.value, e.func.attr
+            r = "self" if (isinstance(recv, ast.Name) and recv.id == "self") else \
+                (recv.id if isinstance(recv, ast.Name) and recv.id in self.isets else None)
+            if r is not None:
+                if name == "from_iterable" and r == "self" and len(e.args) == 1 and not e.keywords:
+                    return "(m_from_list %s)" % self.items(e.args[0])
+                if name in ("union", "intersection", "difference"):
+                    if self.star(e):
+                        return "(src_%s %s %s)" % (name, r, self.vararg)
+                    if len(e.args) == 1 and not e.keywords and not isinstance(e.args[0], ast.Starred):
+                        return "(src_%s %s [%s])" % (name, r, self.operand(e.args[0]))
+        _fail(e, "IndexedSet-valued expression")
+
+    def items(self, e):
+        if isinstance(e, ast.Name) and e.id == "self":
+            return "(m_live self)"
+        if isinstance(e, ast.Name) and e.id in self.items_expr:
+            return self.items_expr[e.id]
+        if isinstance(e, ast.Name) and e.id in self.operands:
+            return "(o_elems %s)" % self.operand(e)
+        if isinstance(e, ast.Name) and e.id in self.klists:
+            return e.id
+        if isinstance(e, ast.Call) and isinstance(e.func, ast.Name) and e.func.id == "chain" and len(e.args) == 2 \
+                and not e.keywords and isinstance(e.args[1], ast.Starred) and isinstance(e.args[1].value, ast.Name) \
+                and e.args[1].value.id == self.vararg:
+            return "(%s ++ all_elems %s)" % (self.items(e.args[0]), self.vararg)
+        if isinstance(e, ast.Call) and isinstance(e.func, ast.Attribute) and isinstance(e.func.value, ast.Name) \
+                and e.func.value.id == "chain" and e.func.attr == "from_iterable" and len(e.args) == 1 and not e.keywords \
+                and isinstance(e.args[0], ast.Name) and e.args[0].id == self.vararg:
+            return "(all_elems %s)" % self.vararg
+        if isinstance(e, ast.Call) and isinstance(e.func, ast.Attribute) and isinstance(e.func.value, ast.Name) \
+                and e.func.value.id == "self" and e.func.attr in ("iter_intersection", "iter_difference") and self.star(e):
+            return "(src_%s self %s)" % (e.func.attr, self.vararg)
+        if isinstance(e, (ast.GeneratorExp, ast.ListComp)) and len(e.generators) == 1:
+            g = e.generators[0]
+            if isinstance(g.target, ast.Name) and not g.is_async and isinstance(e.elt, ast.Name) and e.elt.id == g.target.id:
+                src = self.items(g.iter)
+                self.itemvars.add(g.target.id)
+                c = " && ".join(self.cond(x) for x in g.ifs) if g.ifs else "true"
+                self.itemvars.discard(g.target.id)
+                return "(filter (fun %s => %s) %s)" % (g.target.id, c, src)
+        try:
+            return "(m_live %s)" % self.iset(e)          # iterating an IndexedSet
+        except Unsupported:
+            _fail(e, "iterable of items")
+
+    def cond(self, e):
+        if isinstance(e, ast.UnaryOp) and isinstance(e.op, ast.Not):
+            if isinstance(e.operand, ast.Name) and e.operand.id == self.vararg:
+                return "(negb (is_nonempty %s))" % self.vararg
+            return "(negb %s)" % self.cond(e.operand)
+        if isinstance(e, ast.Compare) and len(e.ops) == 1:
+            op, l, r = e.ops[0], e.left, e.comparators[0]
+            if isinstance(op, (ast.In, ast.NotIn)) and isinstance(l, ast.Name) and l.id in self.itemvars:
+                if isinstance(r, ast.Name) and r.id == "self":
+                    t = "(d_mem (imap self) %s)" % l.id            # __contains__
+                elif isinstance(r, ast.Name) and r.id in self.operands:
+                    t = "(opd_mem %s %s)" % (l.id, self.operand(r))
+                else:
+                    _fail(e, "membership test")
+                return t if isinstance(op, ast.In) else "(negb %s)" % t
+            if isinstance(op, ast.In) and isinstance(l, ast.Name) and l.id == "self" and isinstance(r, ast.Name) \
+                    and r.id == self.vararg:
+                return "(existsb (eq_self self) %s)" % self.vararg          # tuple containment: identity or __eq__
+            if isinstance(op, ast.Is) and isinstance(l, ast.Name) and l.id == "self" and isinstance(r, ast.Name) \
+                    and r.id in self.operands:
+                return "(py_same_object self %s)" % r.id
+            if isinstance(op, ast.Eq) and isinstance(l, ast.Call) and isinstance(l.func, ast.Name) and l.func.id == "len" \
+                    and len(l.args) == 1 and isinstance(l.args[0], ast.Name) and l.args[0].id == self.vararg \
+                    and isinstance(r, ast.Constant) and type(r.value) is int and r.value >= 0:
+                return "(length %s =? %d)" % (self.vararg, r.value)
+        _fail(e, "condition")
+
+    # --- methods that return a value ----------------------------------------------------------------------
+    def value_block(self, stmts, ind, kind):
+        if not stmts:
+            raise Unsupported("function falls off its end")
+        s, rest = stmts[0], stmts[1:]
+        if isinstance(s, ast.Expr) and isinstance(s.value, ast.Constant) and isinstance(s.value.value, str):
+            return self.value_block(rest, ind, kind)
+        if isinstance(s, ast.Return) and s.value is not None and not rest:
+            if kind == "iset":
+                return ind + self.iset(s.value) + "\n"
+            # type(other)(vals): a set of the operand's type, observed in canonical (sorted) order
+            v = s.value
+            if isinstance(v, ast.Call) and isinstance(v.func, ast.Call) and isinstance(v.func.func, ast.Name) \
+                    and v.func.func.id == "type" and len(v.func.args) == 1 and isinstance(v.func.args[0], ast.Name) \
+                    and v.func.args[0].id in self.operands and len(v.args) == 1 and isinstance(v.args[0], ast.Name) \
+                    and v.args[0].id in self.klists:
+                return ind + "(sort_nat %s)\n" % v.args[0].id
+            _fail(s, "return value")
+        if isinstance(s, ast.If) and not s.orelse and s.body and isinstance(s.body[-1], ast.Return):
+            saved = (set(self.operands), dict(self.opd_expr), set(self.isets), set(self.klists))
+            a = self.value_block(s.body, ind + "  ", kind)
+            self.operands, self.opd_expr, self.isets, self.klists = saved
+            return ind + "if %s then (\n%s%s) else (\n%s%s)\n" % (self.cond(s.test), a, ind,
+                                                                   self.value_block(rest, ind + "  ", kind), ind)
+        if isinstance(s, ast.Assign) and len(s.targets) == 1 and isinstance(s.targets[0], ast.Name):
+            n, v = s.targets[0].id, s.value
+            if isinstance(v, ast.Subscript):
+                self.operands.add(n)
+                self.opd_expr[n] = n
+                return ind + "let %s := %s in\n" % (n, self.operand(v)) + self.value_block(rest, ind, kind)
+            if isinstance(v, ast.ListComp):
+                text = ind + "let %s := %s in\n" % (n, self.items(v))
+                self.klists.add(n)
+                return text + self.value_block(rest, ind, kind)
+            text = ind + "let %s := %s in\n" % (n, self.iset(v))
+            self.isets.add(n)
+            return text + self.value_block(rest, ind, kind)
+        _fail(s, "statement")
+
+    # --- generators of the form  for k in self: for other in others: if c: break / else: yield k ---------------
+    def generator(self, fn):
+        body = [x for x in fn.body if not (isinstance(x, ast.Expr) and isinstance(x.value, ast.Constant))]
+        if body and isinstance(body[-1], ast.Return) and body[-1].value is None:
+            body = body[:-1]
+        ok = (len(body) == 1 and isinstance(body[0], ast.For) and isinstance(body[0].target, ast.Name) and not body[0].orelse
+              and isinstance(body[0].iter, ast.Name) and body[0].iter.id == "self" and len(body[0].body) == 1
+              and isinstance(body[0].body[0], ast.For))
+        if ok:
+            outer, inner = body[0], body[0].body[0]
+            ok = (isinstance(inner.target, ast.Name) and isinstance(inner.iter, ast.Name) and inner.iter.id == self.vararg
+                  and len(inner.body) == 1 and isinstance(inner.body[0], ast.If) and not inner.body[0].orelse
+                  and len(inner.body[0].body) == 1 and isinstance(inner.body[0].body[0], ast.Break)
+                  and len(inner.orelse) == 1 and isinstance(inner.orelse[0], ast.Expr)
+                  and isinstance(inner.orelse[0].value, ast.Yield) and isinstance(inner.orelse[0].value.value, ast.Name)
+                  and inner.orelse[0].value.value.id == outer.target.id)
+        if not ok:
+            _fail(fn, "generator shape")
+        self.itemvars.add(outer.target.id)
+        self.operands.add(inner.target.id)
+        c = self.cond(inner.body[0].test)
+        return "  (filter (fun %s => negb (existsb (fun %s => %s) %s)) (m_live self))" % (
+            outer.target.id, inner.target.id, c, self.vararg)
+
+    # --- mutators: the result is the new self --------------------------------------------------------------------
+    def mut_stmt(self, s):
+        """one statement inside a loop body, as an expression of the new self"""
+        if isinstance(s, ast.Expr) and isinstance(s.value, ast.Call) and isinstance(s.value.func, ast.Attribute) \
+                and isinstance(s.value.func.value, ast.Name) and s.value.func.value.id == "self" \
+                and s.value.func.attr in ("add", "discard") and len(s.value.args) == 1 and not s.value.keywords \
+                and isinstance(s.value.args[0], ast.Name) and s.value.args[0].id in self.itemvars:
+            return "(fst (src_%s self %s))" % (s.value.func.attr, s.value.args[0].id)
+        if isinstance(s, ast.If) and len(s.body) == 1 and len(s.orelse) == 1:
+            return "(if %s then %s else %s)" % (self.cond(s.test), self.mut_stmt(s.body[0]), self.mut_stmt(s.orelse[0]))
+        if isinstance(s, ast.For) and isinstance(s.target, ast.Name) and not s.orelse and len(s.body) == 1:
+            return self.loop(s)
+        _fail(s, "statement in a loop body")
+
+    def loop(self, s):
+        it = s.iter
+        if isinstance(it, ast.Name) and it.id == self.vararg:           # for other in others
+            self.operands.add(s.target.id)
+            body = self.mut_stmt(s.body[0])
+            self.operands.discard(s.target.id)
+            return "(fold_left (fun self %s => %s) %s self)" % (s.target.id, body, self.vararg)
+        src = self.items(it)
+        self.itemvars.add(s.target.id)
+        body = self.mut_stmt(s.body[0])
+        self.itemvars.discard(s.target.id)
+        return "(fold_left (fun self %s => %s) %s self)" % (s.target.id, body, src)
+
+    def mut_block(self, stmts, ind):
+        if not stmts:
+            return ind + "self\n"
+        s, rest = stmts[0], stmts[1:]
+        if isinstance(s, ast.Expr) and isinstance(s.value, ast.Constant) and isinstance(s.value.value, str):
+            return self.mut_block(rest, ind)
+        if isinstance(s, ast.Return) and s.value is None:
+            return ind + "self\n"
+        if isinstance(s, ast.For):
+            return ind + "let self := %s in\n" % self.loop(s) + self.mut_block(rest, ind)
+        if isinstance(s, ast.If) and not s.orelse and len(s.body) == 1 and isinstance(s.body[0], ast.Expr) \
+                and isinstance(s.body[0].value, ast.Call) and _is_self_attr(s.body[0].value.func, "clear") \
+                and not s.body[0].value.args:
+            return ind + "let self := if %s then fst (src_clear self) else self in\n" % self.cond(s.test) + \
+                self.mut_block(rest, ind)
+        if isinstance(s, ast.If):
+            saved = (set(self.operands), dict(self.opd_expr), dict(self.items_expr))
+            a = self.mut_block(s.body + rest, ind + "  ")
+            self.operands, self.opd_expr, self.items_expr = set(saved[0]), dict(saved[1]), dict(saved[2])
+            b = self.mut_block(s.orelse + rest, ind + "  ")
+            self.operands, self.opd_expr, self.items_expr = saved
+            return ind + "if %s then (\n%s%s) else (\n%s%s)\n" % (self.cond(s.test), a, ind, b, ind)
+        if isinstance(s, ast.Assign) and len(s.targets) == 1 and isinstance(s.targets[0], ast.Name):
+            n, v = s.targets[0].id, s.value
+            if isinstance(v, ast.Subscript):
+                self.items_expr[n] = "(o_elems %s)" % self.operand(v)      # only iterated afterwards
+                return self.mut_block(rest, ind)
+            self.items_expr[n] = self.items(v)
+            return self.mut_block(rest, ind)
+        _fail(s, "statement")
+
+
+def _alg_methods(tree):
+    text = ""
+
+    def fn_of(name, vararg, params):
+        fn = _method_any(tree, name)
+        if [a.arg for a in fn.args.args] != params or fn.args.defaults or fn.args.kwarg or fn.args.kwonlyargs \
+                or (fn.args.vararg.arg if fn.args.vararg else None) != vararg or fn.decorator_list:
+            raise Unsupported("unexpected signature of %s" % name)
+        return fn
+    sig_v = " (others : list operand)"
+    text += "Definition src_union (self : iset)%s : iset :=\n" % sig_v + \
+        Alg("others").value_block(fn_of("union", "others", ["self"]).body, "  ", "iset").rstrip("\n") + ".\n\n"
+    for g in ("iter_intersection", "iter_difference"):
+        text += "Definition src_%s (self : iset)%s : list K :=\n" % (g, sig_v) + \
+            Alg("others").generator(fn_of(g, "others", ["self"])) + ".\n\n"
+    for m in ("intersection", "difference", "symmetric_difference"):
+        text += "Definition src_%s (self : iset)%s : iset :=\n" % (m, sig_v) + \
+            Alg("others").value_block(fn_of(m, "others", ["self"]).body, "  ", "iset").rstrip("\n") + ".\n\n"
+    text += "Definition src_rsub (self : iset) (other : operand) : list K :=\n" + \
+        Alg(None, ["other"]).value_block(fn_of("__rsub__", None, ["self", "other"]).body, "  ", "klist").rstrip("\n") + ".\n\n"
+    for m in ("update", "intersection_update", "difference_update"):
+        text += "Definition src_%s (self : iset)%s : iset :=\n" % (m, sig_v) + \
+            Alg("others").mut_block(fn_of(m, "others", ["self"]).body, "  ").rstrip("\n") + ".\n\n"
+    text += "Definition src_symmetric_difference_update (self : iset) (other : operand) : iset :=\n" + \
+        Alg(None, ["other"]).mut_block(fn_of("symmetric_difference_update", None, ["self", "other"]).body, "  ").rstrip("\n") + ".\n\n"
+    return text
+
+
+def _method_any(tree, name):
+    cls = [n for n in tree.body if isinstance(n, ast.ClassDef) and n.name == "IndexedSet"]
+    if len(cls) != 1:
+        raise Unsupported("class IndexedSet not found")
+    fn = [n for n in cls[0].body if isinstance(n, ast.FunctionDef) and n.name == name]
+    if len(fn) != 1:
+        raise Unsupported("IndexedSet.%s not found" % name)
+    return fn[0]
+
+
 def _method(tree, name):
     cls = [n for n in tree.body if isinstance(n, ast.ClassDef) and n.name == "IndexedSet"]
     if len(cls) != 1:
@@ -460,6 +728,7 @@ def generate(repo):
             raise Unsupported("unexpected signature of %s" % name)
         text += "Definition src_%s (self : iset)%s : %s :=\n" % (name.strip("_"), sig, ty) + \
             Pure(kinds).block(fn.body, "  ").rstrip("\n") + ".\n\n"
+    text += _alg_methods(tree)
     # __getitem__: the dispatch on the argument's type must be literally the known prelude; the integer path follows
     gi = _method(tree, "__getitem__")
     if [a.arg for a in gi.args.args] != ["self", "index"] or gi.args.defaults:
